@@ -14,12 +14,13 @@
 (***************************************************************************)
 EXTENDS RawStore, Json, IOUtils, TLCExt
 
-VARIABLES l,         \* index of the next log record
+VARIABLES probing,   \* the execution has left the modelled domain (C15 probes): only safety is judged
+          l,         \* index of the next log record
           tinfo      \* track id -> [path, base, ext] as given to create_track (inputs, for C11)
 
 Log == ndJsonDeserialize(IOEnv.TRACE)
 
-tvars == <<vars, l, tinfo>>
+tvars == <<vars, l, tinfo, probing>>
 
 Opt(x) == IF x = Root THEN <<>> ELSE <<x>>          \* options are logged as arrays of length <= 1
 SetOpt(S) == IF S = {} THEN {<<>>} ELSE {<<x>> : x \in S}
@@ -103,10 +104,27 @@ Step(r) ==
       [] r.op = "clear_tracks" -> ClearTracks(r.c)
       [] OTHER -> FALSE
 
-TCall ==
+\* C15: an unmodelled call - on a handle to a removed crate or track, with an id of a nonexistent
+\* entity, a crate from elsewhere in the tree or an extreme argument.  Whatever it does to the
+\* library, it must complete or throw an exception derived from std::exception, and so must every
+\* observer applied afterwards (a crash, hang or sanitizer report ends the trace before this record).
+TProbe ==
     /\ l <= Len(Log)
     /\ LET r == Log[l] IN
-       /\ r.e = "call"
+       /\ r.e = "call" /\ Has(r, "probe")
+       /\ r.out \in {"ok", "throw"} /\ (r.out = "throw" => r.std)
+       /\ (Has(r, "obs_throw") => r.obs_throw.std)
+       /\ (Has(r, "probes") => \A k \in DOMAIN r.probes : (r.probes[k] = "ok" \/ r.probes[k].std))
+       \* handles to removed crates stay safe to copy, assign and ask for their id
+       /\ (Has(r, "probes") => r.probes.id = "ok" /\ r.probes.copy = "ok" /\ r.probes.is_valid = "ok")
+    /\ probing' = TRUE
+    /\ l' = l + 1 /\ UNCHANGED <<vars, tinfo>>
+
+TCall ==
+    /\ l <= Len(Log)
+    /\ ~probing
+    /\ LET r == Log[l] IN
+       /\ r.e = "call" /\ ~Has(r, "probe")
        /\ Has(r, "obs")                       \* the observation itself completed
        /\ IF Faulted(r)
           THEN Failed(Call(r.op, 0, 0, "", 0, 0))     \* C14: a failed statement => throw, no effect
@@ -120,7 +138,7 @@ TCall ==
                    THEN (r.new :> [path |-> r.path, base |-> r.base, ext |-> r.ext]) @@ tinfo
                    ELSE tinfo
        /\ RawNow(r, tinfo')
-    /\ l' = l + 1
+    /\ l' = l + 1 /\ UNCHANGED probing
 
 \* Closing every handle and loading the library again: nothing observable changes, the loader
 \* reports the schema the library was created with (C10).
@@ -135,7 +153,8 @@ TReopen ==
        /\ ObsOK(r.obs, fam', live', {}, par', nm', kids', tlive', {}, mem')   \* no handle survives
        /\ NoWrite(r)
        /\ RawNow(r, tinfo)
-    /\ l' = l + 1 /\ UNCHANGED tinfo
+    /\ ~probing
+    /\ l' = l + 1 /\ UNCHANGED <<tinfo, probing>>
 
 TReset ==
     /\ l <= Len(Log)
@@ -151,10 +170,11 @@ TReset ==
        /\ NoWrite(r)
        /\ tinfo' = <<>>
        /\ RawNow(r, <<>>)
+    /\ probing' = FALSE
     /\ l' = l + 1
 
-TInit == InitWith("v2") /\ l = 1 /\ tinfo = <<>>
-TNext == TCall \/ TReopen \/ TReset
+TInit == InitWith("v2") /\ l = 1 /\ tinfo = <<>> /\ probing = FALSE
+TNext == TCall \/ TProbe \/ TReopen \/ TReset
 TSpec == TInit /\ [][TNext]_tvars
 
 \* Known findings matched by the trace are reported on the way (the validator collects them).
